@@ -675,6 +675,10 @@ func writeValue091(writer io.Writer, v interface{}) (err error) {
 		if err = WriteOctet(writer, byte('F')); err == nil {
 			err = WriteTable(writer, &value, Proto091)
 		}
+	case *Table:
+		if err = WriteOctet(writer, byte('F')); err == nil {
+			err = WriteTable(writer, value, Proto091)
+		}
 	case nil:
 		err = binary.Write(writer, binary.BigEndian, byte('V'))
 	default:
@@ -776,6 +780,10 @@ func writeValueRabbit(writer io.Writer, v interface{}) (err error) {
 	case Table:
 		if err = WriteOctet(writer, byte('F')); err == nil {
 			err = WriteTable(writer, &value, ProtoRabbit)
+		}
+	case *Table:
+		if err = WriteOctet(writer, byte('F')); err == nil {
+			err = WriteTable(writer, value, ProtoRabbit)
 		}
 	case nil:
 		err = binary.Write(writer, binary.BigEndian, byte('V'))
